@@ -544,6 +544,37 @@ func ruleCheckerSelection(c *Ctx) {
 	}
 }
 
+// ruleLabelKeysCaseInsensitive: label keys are matched ignoring case wherever
+// stores' labels are looked up or merged (a store registered with `Zone` is in
+// zone `zone`). The lookup every filter goes through — GetLabelValue — returns a
+// value only under strings.EqualFold(label key, wanted key), as MergeLabels
+// does when it decides that two labels are the same.
+func ruleLabelKeysCaseInsensitive(c *Ctx) {
+	P := c.P
+	rule := c.Prop + "/filter-predicates"
+	isFold := func(cl *ssa.Call) bool {
+		f := cl.Call.StaticCallee()
+		return f != nil && f.Pkg != nil && f.Pkg.Pkg.Path() == "strings" && f.Name() == "EqualFold"
+	}
+	glv := P.Method("server/core", "StoreInfo", "GetLabelValue")
+	getValue := F(P.Method("github.com/pingcap/kvproto/pkg/metapb", "StoreLabel", "GetValue"))
+	valueF := P.Field("github.com/pingcap/kvproto/pkg/metapb", "StoreLabel", "Value")
+	c.need(rule, glv, "answer with a label's value", func(x ssa.Instruction) bool {
+		r, ok := x.(*ssa.Return)
+		return ok && len(r.Results) == 1 && derivesFrom(retVal(r, 0), orPred(resultOfCall(getValue), loadOfField(valueF)), 3)
+	}, []Ev{guardCall("strings.EqualFold(label key, key)", true, isFold)}, all, "a label is the wanted one when its key equals the wanted key ignoring case")
+	ml := P.Method("server/core", "StoreInfo", "MergeLabels")
+	n := 0
+	for _, b := range ml.Blocks {
+		for _, ins := range b.Instrs {
+			if cl, ok := ins.(*ssa.Call); ok && isFold(cl) {
+				n++
+			}
+		}
+	}
+	c.Check(n > 0, rule, "same-label test in "+fnName(ml), "strings.EqualFold on the keys (the same notion of 'same key' as the lookup)", P.pos(ml.Pos()), "")
+}
+
 func ruleShrinkOnlyWhenExtra(c *Ctx) {
 	P := c.P
 	rule := c.Prop + "/shrink-only-when-extra"
@@ -750,7 +781,7 @@ func isPhiValue(v ssa.Value) bool { _, ok := v.(*ssa.Phi); return ok }
 func init() {
 	register("C10", "Replica repair never targets bad stores nor shrinks healthy replication", func(c *Ctx) {
 		c.Group("C10/selector-filters", "the store selector's filter chain: excluded (region's stores), storage threshold, special use, store state, isolation, caller and rule filters, and a strict store-state gate last", func() { ruleSelectorFilters(c) })
-		c.Group("C10/filter-predicates", "StoreStateFilter's condition lists contain the stated conditions and a match rejects; label-constraint, threshold and excluded filters test what they promise; every filter of a set is evaluated", func() { ruleFilterPredicates(c) })
+		c.Group("C10/filter-predicates", "StoreStateFilter's condition lists contain the stated conditions and a match rejects; label-constraint, threshold and excluded filters test what they promise; every filter of a set is evaluated", func() { ruleFilterPredicates(c); ruleLabelKeysCaseInsensitive(c) })
 		c.Group("C10/low-space", "IsLowSpace exempts only stores without statistics or new stores with enough available space", func() { ruleLowSpaceAtoms(c) })
 		c.Group("C10/candidate-lists-not-rewritten", "the filter package builds subsets in fresh slices: candidate lists are shared with the caller", func() { ruleNoInPlaceCompaction(c) })
 		c.Group("C10/target-from-selector", "every peer added by a checker is placed on the store the selector returned, and only when it returned one", func() { ruleRepairTargets(c) })
